@@ -124,11 +124,15 @@ func (g *gen) randomScript(o scriptOpts, c *ctx) []Stmt {
 			continue
 		}
 		t := s.Tables[g.rng.Intn(len(s.Tables))]
-		switch k := g.rng.Intn(20); {
+		k := g.rng.Intn(20)
+		if len(t.Cols) == 0 && k >= 5 {
+			k = 0 // a table all of whose columns were dropped (postgres): the only statement about columns that applies is ADD COLUMN
+		}
+		switch {
 		case k < 5: // add column
 			col := g.newColumn(t)
 			st := Stmt{Kind: "addColumn", T: t.Name, Col: col, Pos: "none"}
-			if o.positional {
+			if o.positional && len(t.Cols) > 0 {
 				switch g.rng.Intn(3) {
 				case 0:
 					st.Pos = "first"
@@ -145,7 +149,10 @@ func (g *gen) randomScript(o scriptOpts, c *ctx) []Stmt {
 			}
 			emit(st)
 		case k < 7 && o.drops:
-			if len(t.Cols) <= 1 {
+			if len(t.Cols) <= 1 && g.dialect != "postgres" { // postgres accepts a table without columns; mysql and sqlite refuse to drop the last one
+				continue
+			}
+			if len(t.Cols) == 0 {
 				continue
 			}
 			cn := t.Cols[g.rng.Intn(len(t.Cols))].Name
